@@ -2,7 +2,8 @@
    non-vacuity examples, refutation witnesses, Print Assumptions. *)
 From Coq Require Import List ZArith Bool.
 From Model Require Import Orm.
-From Proofs Require Import OrmSpec OrmWrites OrmInvCreate.
+From Model Require Import OrmPaths.
+From Proofs Require Import OrmSpec OrmWrites OrmInvCreate OrmInvFaults OrmPathsSpec OrmPathsFaults.
 Import ListNotations.
 Open Scope Z_scope.
 
@@ -51,6 +52,28 @@ Lemma C06_create_reread_fault_refuted :
     t_rows (tbl s' Eager) <> t_rows (tbl init Eager) /\ c_strong (cch s' Eager) <> c_strong (cch init Eager).
 Proof. eexists _, _. split; [vm_compute; reflexivity|]. split; vm_compute; discriminate. Qed.
 
+(* "No instance is registered for a row that was not inserted": after any history of library operations and access
+   paths, each possibly with a database error injected at any statement (pguard04f; no unpickling: a pickle outlives
+   its row, open finding of C04), every instance the cache knows is undestroyed and its row exists. *)
+Theorem C06_no_unregistered_rows :
+  forall (cfg : config) (pops : list pop) (k : kind) (id : Z) (o : nat),
+    forallb pguard04f pops = true -> forallb pno_unpickle_f pops = true ->
+    let s := prun cfg pops in
+    (In (id, o) (c_strong (cch s k)) \/ In (id, o) (c_weak (cch s k))) ->
+    i_obsolete (get_inst s o) = false /\ assoc id (t_rows (tbl s k)) <> None.
+Proof. exact C06_paths_no_unregistered_rows_proof. Qed.
+
+(* "Whatever made the call raise, every attribute of every instance the application holds still equals the stored
+   row afterwards": for ANY operation (create, get, select, lookup, read, assign, set, sync, destroy, ... -- with or
+   without an injected database error) that raises on a state reached by such a history. *)
+Theorem C06_coherent_after_failure :
+  forall (cfg : config) (ops : list op) (op : op) (e : exc) (s' : st) (o : nat),
+    forallb guard05f ops = true -> forallb read_ok_f ops = true ->
+    guard05f op = true -> read_ok_f op = true ->
+    step cfg (run cfg ops) op = (Raise e, s') ->
+    held s' o -> current s' o -> cache_values (i_k (get_inst s' o)) = true -> shows_row s' o.
+Proof. exact C06_coherent_after_failure_proof. Qed.
+
 (* non-vacuity: raising writes of every kind exist on a reachable state *)
 Definition hist0 := [OCreate Eager [(1%nat, VInt 100); (0%nat, VInt 1)]; OCreate Eager [(1%nat, VInt 101)];
                      OCreate Lazy [(1%nat, VInt 102)]; OCreate Lazy [(1%nat, VInt 103)]].
@@ -80,4 +103,6 @@ Proof. vm_compute. reflexivity. Qed.
 Print Assumptions C06_failing_write_changes_nothing.
 Print Assumptions C06_create_atomic.
 Print Assumptions C06_create_fault_atomic.
+Print Assumptions C06_no_unregistered_rows.
+Print Assumptions C06_coherent_after_failure.
 Print Assumptions C06_create_reread_fault_refuted.
